@@ -10,7 +10,7 @@ use std::collections::BTreeSet;
 
 pub static DEF: PropDef = PropDef {
     id: "C17",
-    rule: "regex ASTs (literal a/b/c/'.'/'+'/'?' (the last two ordinary in the basic syntaxes, written [+] [?] where they are operators), any-char '.', positive/negative bracket sets with ranges, concatenation, alternation, grouping, '*', '+', '?', intervals {m}, {m,}, {m,n} with n <= 3) of depth <= 5, rendered into each supported syntax using only the constructs that syntax documents (emacs: \\( \\) \\| * + ?; posix-basic / ed / sed: \\( \\) * \\{m,n\\}; grep: \\( \\) \\| * \\+ \\? \\{m,n\\}; posix-extended: ( ) | * + ? {m,n}), alternation branches also rendered in reversed order; subjects: strings generated FROM the AST (members), their proper prefixes and one-character extensions (the prefix/substring trap), one-character edits, random strings over the same alphabet, and (where the pattern has no '.' or negated set, the only constructs that could consume it) members followed or preceded by a newline and further text, all embedded as paths r/<subject> with the pattern prefixed by the literal r/. Oracle: an independent set-of-end-positions matcher over the AST deciding membership of the ENTIRE path (ASCII case folding for -iregex). tier A through the verif-hooks entry point: exhaustive over every AST of <= 4 (thorough 5) nodes on {a, b, .} x every subject of <= 4 symbols over {a, b} x every syntax x both case modes, then random; tier B end to end: find r [-regextype T] -regex|-iregex P -print0 on a directory whose files are named by the subjects; positional -regextype: the option placed before a parenthesised group, inside an earlier group, twice with different types. Non-trivial = the AST contains an alternation or a counted repetition (+, ?, interval), and the subject set contains a member, a non-member, and a proper prefix of a member that is itself a member of one alternative or a non-member. Distinct = distinct case JSON.",
+    rule: "regex ASTs (literal a/b/c/'.'/'+'/'?'/newline (the '+' and '?' ordinary in the basic syntaxes, written [+] [?] where they are operators), any-char '.', positive/negative bracket sets with ranges, concatenation, alternation, grouping, '*', '+', '?', intervals {m}, {m,}, {m,n} with n <= 3) of depth <= 5, rendered into each supported syntax using only the constructs that syntax documents (emacs: \\( \\) \\| * + ?; posix-basic / ed / sed: \\( \\) * \\{m,n\\}; grep: \\( \\) \\| * \\+ \\? \\{m,n\\}; posix-extended: ( ) | * + ? {m,n}), alternation branches also rendered in reversed order; subjects: strings generated FROM the AST (members), their proper prefixes and one-character extensions (the prefix/substring trap), one-character edits, random strings over the same alphabet, and (where the pattern has no '.' or negated set, the only constructs that could consume it) members followed or preceded by a newline and further text, all embedded as paths r/<subject> with the pattern prefixed by the literal r/. Oracle: an independent set-of-end-positions matcher over the AST deciding membership of the ENTIRE path (ASCII case folding for -iregex). tier A through the verif-hooks entry point: exhaustive over every AST of <= 4 (thorough 5) nodes on {a, b, .} x every subject of <= 4 symbols over {a, b} x every syntax x both case modes, then random; tier B end to end: find r [-regextype T] -regex|-iregex P -print0 on a directory whose files are named by the subjects; positional -regextype: the option placed before a parenthesised group, inside an earlier group, twice with different types. Non-trivial = the AST contains an alternation or a counted repetition (+, ?, interval), and the subject set contains a member, a non-member, and a proper prefix of a member that is itself a member of one alternative or a non-member. Distinct = distinct case JSON.",
     assumptions: &[
         "back-references, anchors inside patterns, POSIX classes, case folding beyond ASCII are not generated; newlines in paths only for patterns without . and negated sets",
         "only constructs each syntax documents are rendered (posix-basic without \\+ \\? \\|)",
@@ -316,7 +316,7 @@ pub fn member(re: &Re, subject: &str, icase: bool) -> bool {
 
 fn gen_atom(g: &mut Gen) -> Re {
     match g.weighted(&[8, 2, 3]) {
-        0 => Re::Lit(g.pick(&['a', 'b', 'c', 'a', 'b', '.', 'A', '+', '?'])),
+        0 => Re::Lit(g.pick(&['a', 'b', 'c', 'a', 'b', '.', 'A', '+', '?', 'a', 'b', 'c', 'a', 'b', '.', 'A', '+', '?', '\n'])),
         1 => Re::Any,
         _ => {
             let neg = g.chance(1, 3);
@@ -588,7 +588,10 @@ pub fn check_hook_inner(c: &Case) -> Outcome {
     }
     let f = full_of(c);
     let pattern = render(&f, &c.syntax, c.rev_alt);
-    let paths: Vec<String> = c.subjects.iter().map(|s| format!("r/{s}")).collect();
+    // whether '.' and negated sets consume a newline differs between the syntaxes and is not settled
+    // by the statement: with such a construct in the pattern, subjects holding a newline are left out
+    let undecided_newline = c.re.may_match_newline();
+    let paths: Vec<String> = c.subjects.iter().filter(|s| !(undecided_newline && s.contains('\n'))).map(|s| format!("r/{s}")).collect();
     let refs: Vec<&str> = paths.iter().map(|s| s.as_str()).collect();
     let got = match crate::engine::proc::catch(|| regex_match_many(&c.syntax, &pattern, c.icase, &refs)) {
         Ok(Ok(g)) => g,
@@ -660,7 +663,11 @@ fn check_e2e(ctx: &mut Ctx, e: &E2e) -> Outcome {
     ctx.fresh_case_dir();
     std::fs::create_dir("c/r").unwrap();
     let mut names: Vec<String> = vec![];
+    let undecided_newline = c.re.may_match_newline();
     for s in &c.subjects {
+        if undecided_newline && s.contains('\n') {
+            continue;
+        }
         if !s.is_empty() && s != "." && s != ".." && !s.contains('/') && std::fs::File::create(format!("c/r/{s}")).is_ok() {
             names.push(s.clone());
         }
